@@ -54,8 +54,8 @@ CLAIMS.update({
         technique='sibling-agreement and path-dominance rules over the delay ladder; provenance of the returned delay',
         text='Static: every distribution branch must draw an array from default_rng(self.seed) and use the degree '
              'through .value; the returned value is an element of sample[sample > mean] or the runtime; the empty '
-             'selection is guarded; degree 0 returns before any draw; do_work flags lengthened tasks and the '
-             'scheduler reports DELAYED. The uniform branch is a recorded known finding.',
+             'selection is guarded; degree 0 returns before any draw; do_work flags lengthened tasks, nothing but '
+             'Task.__init__ ever lowers delay_flag, and the scheduler reports DELAYED. The uniform branch is a recorded known finding.',
         note='Trusts numpy Generator semantics; distribution values themselves are not decided.',
         ref='DESIGN.md section 4, C15'),
 })
@@ -66,18 +66,20 @@ CLAIMS.update({
         text='Static: pool state is private to Cluster and getters return copies; in every atomic block (path piece '
              'between two yields, helpers and spawned children inlined, loop invariants inferred) every machine is '
              'either untouched or moved by one remove plus one append to a different pool; refusals precede effects '
-             'and a helper\'s refusal status is never dropped; the usage counters move exactly with the containers '
+             'and a helper\'s refusal status is never dropped; machines set aside for a reservation are by provenance '
+             'elements of the available pool (so the bulk operation cannot be refused half-way); the usage counters move exactly with the containers '
              'they mirror. These are necessary conditions for exactly-one-pool and true counts at every instant.',
         note='Final state ("all machines available at the end") needs termination and is not decided. '
              'Assumes machines are unique objects and list.append/remove semantics.',
         ref='DESIGN.md section 4, C02'),
     'C05': dict(
         technique='reservation-pairing, loop-yield, release-reachability and partial-operation precondition rules (path dominance)',
-        text='Static, FOUR NECESSARY CLAUSES ONLY - termination and the serial time bound are run-time quantities and '
+        text='Static, NECESSARY CLAUSES ONLY - termination and the serial time bound are run-time quantities and '
              'are not decided: L1 the ingest reservation is taken only with a true verdict, the consumer starts ingest, '
              'ingest releases the same amount on every exit; L2 every while-cycle of every SimPy process yields; '
-             'L3 batch partitions are released at workflow end; L4 every [-1]/pop on a tier stored list and every '
-             'free-list remove is dominated by its precondition.',
+             'L3 batch partitions are released at workflow end (release judged by its effects); L4 every [-1]/pop on a tier stored list and every '
+             'free-list remove is dominated by its precondition; L6 an algorithm takes a machine off its per-round free list only when it proposes it; '
+             'L5/L7/L8 adopt the life-cycle, typestate, reservation-return and pending-volume rules of C08, C04, C09, C18.',
         note='Each clause is necessary: its violation makes a feasible configuration block forever or raise. Sufficiency is not claimed.',
         ref='DESIGN.md section 4, C05'),
     'C06': dict(
